@@ -393,7 +393,16 @@ int main(void)
 	n = ND_SIZE();
 	ASSUME(n >= 1 && n <= len);
 	size_t pre_oxa = cc.oxa, pre_oxc = cc.oxc;
+	unsigned char pre_ad2 = cc.application_data, pre_rt_out = cc.record_type_out;
 	br_ssl_engine_sendrec_ack(&cc, n);
+	if (n == len) {
+		/* ssl_engine.c implementation notes: the handshake processor is invoked when "an outgoing record has
+		   just finished being sent, and the application data flag is cleared" (application_data 0, or 2 =
+		   closing: close_notify still has to be produced), and for non-application records (renegotiation) */
+		int must_resume = (pre_rt_out != BR_SSL_APPLICATION_DATA) || pre_ad2 != 1;
+		CHECK((hs_calls >= 1) == must_resume, "coroutine resumed after the record is fully sent exactly when application data is not flowing (handshake, or closure in progress)");
+		if (pre_ad2 == 2 && pre_rt_out == BR_SSL_APPLICATION_DATA) { WITNESS_POINT("pending data sent during closure"); }
+	}
 	if (n < len && !br_ssl_engine_closed(&cc)) {
 		size_t l2; unsigned char *b2 = br_ssl_engine_sendrec_buf(&cc, &l2);
 		CHECK(b2 == b + n && l2 == len - n, "partial sendrec ack leaves exactly the remaining record bytes, in order");
